@@ -56,7 +56,7 @@ fn join<T>(xs: &[T], f: impl Fn(&T) -> String) -> String {
 
 /// A collected mask iterator: the whole list when short, else length, ends and a 64-bit digest.
 fn show_masks<T: Display + Copy>(v: &[T], bits: &[u128]) -> String {
-    if v.len() <= 64 {
+    if v.len() <= 32 {
         join(v, |x| x.to_string())
     } else {
         let h = bits.iter().fold(HASH_INIT, |h, &b| hash_bits(h, b));
@@ -111,6 +111,7 @@ fn deposit(k: u64, pos: &[u32]) -> u128 {
 
 const ORACLE_MAX_BITS: usize = 20;
 const MAX_FREE_BITS: u32 = 24;
+const MAX_STEPS: usize = 100_000;
 
 /// every submask of `x`, decreasing; `None` when there are too many to enumerate
 fn oracle_submasks(x: u128, w: u32) -> Option<Vec<u128>> {
@@ -300,15 +301,35 @@ fn generic_perms_agree(d: &[i64], expect: &[Vec<i64>], limit: usize) -> bool {
     got.as_slice() == expect
 }
 
-fn with_oracle(raw: String, agrees: Option<bool>) -> String {
-    match agrees {
-        Some(false) => out2(&raw, &format!("oracle-mismatch {}", raw)),
+/// `diff` = `Some(Some(explanation))` when the brute-force oracle disagrees with the collected output: the view then
+/// names the first differing position and the elements around it, so that a replay of a digest-only line explains itself.
+fn with_oracle(raw: String, diff: Option<Option<String>>) -> String {
+    match diff {
+        Some(Some(expl)) => out2(&raw, &format!("oracle-mismatch {} :: {}", expl, raw)),
         _ => out1(&raw),
     }
 }
 
+/// element-by-element comparison: `None` when equal, else `@k got [..window..] want [..window..] len g/w`
+fn first_diff<T: PartialEq>(got: &[T], want: &[T], show: impl Fn(&T) -> String) -> Option<String> {
+    if got == want {
+        return None;
+    }
+    let k = got.iter().zip(want.iter()).position(|(a, b)| a != b).unwrap_or(got.len().min(want.len()));
+    let win = |v: &[T]| -> String {
+        let lo = k.saturating_sub(2);
+        let hi = (k + 3).min(v.len());
+        if lo >= hi {
+            "[<end>]".to_string()
+        } else {
+            join(&v[lo..hi], |x| show(x))
+        }
+    };
+    Some(format!("@{} got {} want {} len {}/{}", k, win(got), win(want), got.len(), want.len()))
+}
+
 macro_rules! run_masks {
-    ($t:ty, $ut:ty, $sub:expr, $tok:expr, $w:expr) => {{
+    ($t:ty, $ut:ty, $sub:expr, $tok:expr, $w:expr, $ty:expr) => {{
         let x: $t = if $tok.starts_with('-') { $tok.parse::<i128>().unwrap() as $t } else { $tok.parse::<u128>().unwrap() as $t };
         let xb = (x as $ut) as u128;
         let oracle = if $sub { oracle_submasks(xb, $w) } else { oracle_supermasks(xb, $w) };
@@ -329,8 +350,8 @@ macro_rules! run_masks {
             Err(e) => out1(&e),
             Ok(v) => {
                 let bits: Vec<u128> = v.iter().map(|&s| (s as $ut) as u128).collect();
-                let agrees = oracle.map(|o| o == bits);
-                with_oracle(show_masks(&v, &bits), agrees)
+                let diff = oracle.map(|o| first_diff(&bits, &o, |b| to_signed_str($ty, *b)));
+                with_oracle(show_masks(&v, &bits), diff)
             }
         }
     }};
@@ -338,18 +359,18 @@ macro_rules! run_masks {
 
 fn run_mask_case(sub: bool, ty: &str, tok: &str) -> String {
     match ty {
-        "i8" => run_masks!(i8, u8, sub, tok, 8),
-        "u8" => run_masks!(u8, u8, sub, tok, 8),
-        "i16" => run_masks!(i16, u16, sub, tok, 16),
-        "u16" => run_masks!(u16, u16, sub, tok, 16),
-        "i32" => run_masks!(i32, u32, sub, tok, 32),
-        "u32" => run_masks!(u32, u32, sub, tok, 32),
-        "i64" => run_masks!(i64, u64, sub, tok, 64),
-        "u64" => run_masks!(u64, u64, sub, tok, 64),
-        "i128" => run_masks!(i128, u128, sub, tok, 128),
-        "u128" => run_masks!(u128, u128, sub, tok, 128),
-        "isize" => run_masks!(isize, usize, sub, tok, 64),
-        "usize" => run_masks!(usize, usize, sub, tok, 64),
+        "i8" => run_masks!(i8, u8, sub, tok, 8, ty),
+        "u8" => run_masks!(u8, u8, sub, tok, 8, ty),
+        "i16" => run_masks!(i16, u16, sub, tok, 16, ty),
+        "u16" => run_masks!(u16, u16, sub, tok, 16, ty),
+        "i32" => run_masks!(i32, u32, sub, tok, 32, ty),
+        "u32" => run_masks!(u32, u32, sub, tok, 32, ty),
+        "i64" => run_masks!(i64, u64, sub, tok, 64, ty),
+        "u64" => run_masks!(u64, u64, sub, tok, 64, ty),
+        "i128" => run_masks!(i128, u128, sub, tok, 128, ty),
+        "u128" => run_masks!(u128, u128, sub, tok, 128, ty),
+        "isize" => run_masks!(isize, usize, sub, tok, 64, ty),
+        "usize" => run_masks!(usize, usize, sub, tok, 64, ty),
         _ => "I bad-type | V bad-type".to_string(),
     }
 }
@@ -392,10 +413,64 @@ fn run_case(po: &mut PermOracle, line: &str) -> String {
                     if catch(|| generic_np_agrees(&d, &res)) != Ok(true) {
                         return out2(&raw, &format!("generic-mismatch {}", raw));
                     }
-                    let agrees = if d.len() <= PERM_ORACLE_MAX_LEN { Some(po.successor(&d) == res) } else { None };
-                    with_oracle(raw, agrees)
+                    let diff = if d.len() <= PERM_ORACLE_MAX_LEN {
+                        let want = po.successor(&d);
+                        Some(if want == res { None } else { Some(format!("want {} {}", show_ints(&want.0), want.1)) })
+                    } else {
+                        None
+                    };
+                    with_oracle(raw, diff)
                 }
             }
+        }
+        ("npk", 3) => {
+            // `npk K a,b,c`: K successive calls of next_permutation; digest of every intermediate content and flag
+            let k: usize = toks[1].parse().unwrap_or(0);
+            let d = parse_list(toks[2]);
+            if k > MAX_STEPS || d.len() > PERM_ORACLE_MAX_LEN {
+                return out1("refused:too-many-elements");
+            }
+            let mut v = d.clone();
+            let mut h = HASH_INIT;
+            let mut falses = 0usize;
+            let mut expl: Option<String> = None;
+            for step in 0..k {
+                let before = v.clone();
+                let b = match catch(|| {
+                    let b = next_permutation(&mut v);
+                    (std::mem::take(&mut v), b)
+                }) {
+                    Err(e) => return out1(&e),
+                    Ok((nv, b)) => {
+                        v = nv;
+                        b
+                    }
+                };
+                for &z in &v {
+                    h = hash_step(h, z as u64);
+                }
+                h = hash_step(h, u64::MAX);
+                h = hash_step(h, b as u64);
+                if !b {
+                    falses += 1;
+                }
+                if expl.is_none() {
+                    let want = po.successor(&before);
+                    if want != (v.clone(), b) {
+                        expl = Some(format!(
+                            "@step {} from {} got {} {} want {} {}",
+                            step,
+                            show_ints(&before),
+                            show_ints(&v),
+                            b,
+                            show_ints(&want.0),
+                            want.1
+                        ));
+                    }
+                }
+            }
+            let raw = format!("steps={} last={} falses={} h={:016x}", k, show_ints(&v), falses, h);
+            with_oracle(raw, Some(expl))
         }
         ("perms", 2) => {
             let d = parse_list(toks[1]);
@@ -409,8 +484,9 @@ fn run_case(po: &mut PermOracle, line: &str) -> String {
                     if d.len() <= 7 && catch(|| generic_perms_agree(&d, &ls, limit)) != Ok(true) {
                         return out2(&show_perms(&ls), &format!("generic-mismatch {}", show_perms(&ls)));
                     }
-                    let agrees = if d.len() <= PERM_ORACLE_MAX_LEN { Some(po.table(&d) == &ls) } else { None };
-                    with_oracle(show_perms(&ls), agrees)
+                    let diff =
+                        if d.len() <= PERM_ORACLE_MAX_LEN { Some(first_diff(&ls, po.table(&d), |l| show_ints(l))) } else { None };
+                    with_oracle(show_perms(&ls), diff)
                 }
             }
         }
@@ -428,7 +504,9 @@ fn run_case(po: &mut PermOracle, line: &str) -> String {
                     let mut got: Vec<(u64, u64)> = v.iter().map(|p| (p.0 as u64, p.1 as u64)).collect();
                     got.sort();
                     // same set as the brute-force scan, and no cell twice
-                    with_oracle(raw, Some(got == oracle_neighbours(op, a[0], a[1], a[2], a[3])))
+                    let want = oracle_neighbours(op, a[0], a[1], a[2], a[3]);
+                    let diff = if got == want { None } else { Some(format!("want-set {}", join(&want, |p| format!("({},{})", p.0, p.1)))) };
+                    with_oracle(raw, Some(diff))
                 }
             }
         }
@@ -520,12 +598,39 @@ fn list_str(d: &[i64]) -> String {
     }
 }
 
+/// emit one `np` case and record which branch of the algorithm it exercises
+fn emit_np(emit: &mut dyn FnMut(String), st: &mut Stats, stream: &str, d: &[i64]) {
+    emit(format!("np {}", list_str(d)));
+    st.bump(stream);
+    st.bump(&format!("np_len_{}", d.len()));
+    let mut sorted = d.to_vec();
+    sorted.sort();
+    if sorted.windows(2).any(|p| p[0] == p[1]) {
+        st.bump("np_has_duplicates");
+    }
+    // rightmost ascent
+    match (1..d.len()).rev().find(|&i| d[i - 1] < d[i]) {
+        None => st.bump("np_branch_nonincreasing_false"),
+        Some(i) => {
+            st.bump("np_branch_true");
+            let pivot = d[i - 1];
+            if d[i..].contains(&pivot) {
+                // the pivot value occurs again in the suffix: `>` vs `>=` for the swap partner matters
+                st.bump("np_pivot_value_repeated_in_suffix");
+            }
+            if d[i..].iter().filter(|&&v| v > pivot).count() >= 2 {
+                st.bump("np_several_candidates_above_pivot");
+            }
+        }
+    }
+}
+
 fn gen(args: &Args, emit: &mut dyn FnMut(String), st: &mut Stats) {
     let thorough = args.tier == "thorough";
     let mut rng = SplitMix64::new(args.seed ^ 0xC15);
 
     // ---- masks (1): every mask of the 8-bit types; of the 16-bit types exhaustively (thorough) or
-    //      every mask with <= 4 free bits plus a random sample (quick)
+    //      every mask with <= 6 free bits plus a 1/16 sample of the rest, seeded (quick)
     for ty in ["u8", "i8"] {
         for x in 0..256u128 {
             emit_mask(emit, st, true, ty, x);
@@ -535,8 +640,8 @@ fn gen(args: &Args, emit: &mut dyn FnMut(String), st: &mut Stats) {
     for ty in ["u16", "i16"] {
         for x in 0..65536u128 {
             let pc = x.count_ones();
-            let take_sub = thorough || pc <= 4 || rng.chance(1, 64);
-            let take_sup = thorough || 16 - pc <= 4 || rng.chance(1, 64);
+            let take_sub = thorough || pc <= 6 || rng.chance(1, 16);
+            let take_sup = thorough || 16 - pc <= 6 || rng.chance(1, 16);
             if take_sub {
                 emit_mask(emit, st, true, ty, x);
             }
@@ -564,7 +669,8 @@ fn gen(args: &Args, emit: &mut dyn FnMut(String), st: &mut Stats) {
             let p = pattern(&mut rng, w, k);
             emit_mask(emit, st, true, ty, p);
             // supermasks: the complement has k zero bits
-            let k2 = if rng.chance(1, 8) { rng.below(13) as u32 } else { rng.below(9) as u32 };
+            // (the model's bit-by-bit `count_zeros` is slow on 128-bit patterns: fewer free bits there in the quick tier)
+            let k2 = if rng.chance(1, 8) { rng.below(if w == 128 && !thorough { 10 } else { 13 }) as u32 } else { rng.below(9) as u32 };
             let q = !pattern(&mut rng, w, k2) & wm;
             emit_mask(emit, st, false, ty, q);
         }
@@ -581,9 +687,7 @@ fn gen(args: &Args, emit: &mut dyn FnMut(String), st: &mut Stats) {
                 d.push((c % 3) as i64);
                 c /= 3;
             }
-            emit(format!("np {}", list_str(&d)));
-            st.bump("np_alphabet3");
-            st.bump(&format!("np_len_{}", len));
+            emit_np(emit, st, "np_alphabet3", &d);
             // iter_permutations depends only on the multiset: emit for sorted inputs, and a few unsorted ones
             let sorted = d.windows(2).all(|p| p[0] <= p[1]);
             if sorted || (len <= 5 && rng.chance(1, 8)) {
@@ -600,9 +704,7 @@ fn gen(args: &Args, emit: &mut dyn FnMut(String), st: &mut Stats) {
         let mut all = Vec::new();
         all_arrangements(&mut Vec::new(), &mut base.clone(), &mut all);
         for d in &all {
-            emit(format!("np {}", list_str(d)));
-            st.bump("np_distinct");
-            st.bump(&format!("np_len_{}", len));
+            emit_np(emit, st, "np_distinct", d);
         }
     }
     for len in 0..=8usize {
@@ -630,13 +732,56 @@ fn gen(args: &Args, emit: &mut dyn FnMut(String), st: &mut Stats) {
                 }
             })
             .collect();
-        emit(format!("np {}", list_str(&d)));
-        st.bump("np_random");
-        st.bump(&format!("np_len_{}", len));
+        emit_np(emit, st, "np_random", &d);
         if len <= 7 && rng.chance(1, 10) {
             emit(format!("perms {}", list_str(&d)));
             st.bump("perms_random");
         }
+    }
+
+    // ---- (4) by design: the pivot value occurs again in the non-increasing suffix, next to larger and smaller values
+    //      (prefix ++ [x] ++ suffix, suffix non-increasing, contains x and something > x), length <= 7
+    let ndup = if thorough { 20000 } else { 1500 };
+    for _ in 0..ndup {
+        let x = rng.range_i64(-2, 2);
+        let pre_len = rng.below(3) as usize;
+        let mut d: Vec<i64> = (0..pre_len).map(|_| rng.range_i64(-3, 4)).collect();
+        d.push(x);
+        let room = 7 - d.len();
+        let n_above = 1 + rng.below(3.min(room as u64 - 1)) as usize;
+        let n_eq = 1 + rng.below(2.min((room - n_above) as u64).max(1)) as usize;
+        let n_below = rng.below((room - n_above - n_eq.min(room - n_above)) as u64 + 1) as usize;
+        let mut suffix: Vec<i64> = Vec::new();
+        for _ in 0..n_above {
+            suffix.push(x + 1 + rng.below(2) as i64);
+        }
+        for _ in 0..n_eq.min(room - n_above) {
+            suffix.push(x);
+        }
+        for _ in 0..n_below {
+            suffix.push(x - 1 - rng.below(2) as i64);
+        }
+        suffix.sort_by(|a, b| b.cmp(a));
+        d.extend(suffix);
+        emit_np(emit, st, "np_designed_pivot_repeated", &d);
+    }
+    // ---- (5) walks: K successive steps from a start point; 8 distinct elements and 8-element multisets
+    //      (quick: a few hundred start points x 1000 steps; together with the `perms` case of 8 distinct elements,
+    //      which steps through all 8! arrangements, this puts the 8-element clause into the quick tier)
+    let (nwalk, steps) = if thorough { (1000, 5000) } else { (210, 1000) };
+    for w in 0..nwalk {
+        let mut d: Vec<i64> = if w % 3 == 2 {
+            (0..8).map(|_| rng.range_i64(0, 3)).collect()
+        } else {
+            (0..8i64).map(|v| v * 3 - 5).collect()
+        };
+        for k in (1..d.len()).rev() {
+            let r = rng.below(k as u64 + 1) as usize;
+            d.swap(k, r);
+        }
+        emit(format!("npk {} {}", steps, list_str(&d)));
+        st.bump(if w % 3 == 2 { "npk_walks_multiset8" } else { "npk_walks_distinct8" });
+        st.add("npk_steps", steps as u64);
     }
 
     // ---- neighbours (1): every grid up to 6x6 (including 0xk, kx0, 1x1), every cell, and the cells just
@@ -648,6 +793,10 @@ fn gen(args: &Args, emit: &mut dyn FnMut(String), st: &mut Stats) {
                     for kind in ["n4", "n4d", "n8"] {
                         emit(format!("{} {} {} {} {}", kind, n, m, i, j));
                         st.bump(&format!("{}_small", kind));
+                        st.bump(if n == m { "grid_small_square" } else { "grid_small_nonsquare" });
+                        if kind == "n4d" && i == 0 && j == 0 {
+                            st.bump(&format!("grid_shape_{}x{}", n, m));
+                        }
                         if i >= n || j >= m {
                             st.bump("neighbours_cell_outside");
                         }
